@@ -1493,7 +1493,7 @@ func (e *Ev) freshRef(hint string) string {
 	r := e.g().freshName("ref$" + hint)
 	e.st.declare(r, sInt)
 	e.define(app(">", r, "0"))
-	e.g().Pre.add("(declare-fun fresh$ (Int) Bool)")
+	e.g().Pre.addFresh()
 	e.define(app("fresh$", r))
 	for _, o := range e.st.allocs {
 		e.define(smtNot(smtEq(r, o)))
